@@ -2,6 +2,7 @@ package rules
 
 import (
 	"fmt"
+	"go/types"
 	"strings"
 
 	"golang.org/x/tools/go/ssa"
@@ -29,6 +30,7 @@ func init() {
 			c11DebugPassthrough(c)
 			c11HeadEnd(c)
 			c11SniffSnapshot(c)
+			c11DebugDialerWrap(c)
 			parserHelperRules(c, "C11")
 			// the debug dialer sees the handshake through WrapConn: it must wrap the outermost connection
 			c20DialConn(c)
@@ -558,4 +560,128 @@ func c11SniffSnapshot(c *Ctx) {
 		}
 	}
 	c.R.Sites += n
+}
+
+// c11DebugDialerWrap folds the WrapConn hook DebugDialer.Dial installs: the
+// connection it tees, remembers (and later returns and re-points the buffered
+// reader at) is the outermost one - the result of the user's own WrapConn when
+// there is one - so that the debug wrapper changes nothing but the tee.
+func c11DebugDialerWrap(c *Ctx) {
+	const rule = "C11.debug-dialer-wrap"
+	c.R.Rule(rule, 1, "DebugDialer.Dial: the connection remembered, teed and handed back by its WrapConn hook is the user's wrapped connection (the raw one when no WrapConn is configured)")
+	f := c.method(rule, wsutil, "DebugDialer", "Dial")
+	if f == nil {
+		return
+	}
+	// the closure stored into the WrapConn field of the dialer copy
+	var hook *ssa.MakeClosure
+	for _, b := range f.Blocks {
+		for _, in := range b.Instrs {
+			st, ok := in.(*ssa.Store)
+			if !ok {
+				continue
+			}
+			fa, ok := st.Addr.(*ssa.FieldAddr)
+			if !ok {
+				continue
+			}
+			stt, ok := fa.X.Type().Underlying().(*types.Pointer).Elem().Underlying().(*types.Struct)
+			if !ok || stt.Field(fa.Field).Name() != "WrapConn" {
+				continue
+			}
+			if mc, ok := st.Val.(*ssa.MakeClosure); ok {
+				hook = mc
+			}
+		}
+	}
+	if hook == nil {
+		c.R.Unknown(rule, rule+"/hook", c.P.FuncPos(f), "no closure is stored into the dialer's WrapConn any more: how the debug wrapper sees the handshake is not recognisable")
+		return
+	}
+	fn := hook.Fn.(*ssa.Function)
+	c.R.Func(fn.String())
+	m := c.machine()
+	m.OpaqueOK = true
+	m.Models["callback:userWrap"] = func(cl *fold.Call) fold.Val {
+		cl.M.Emit(fold.Effect{Kind: "call", Name: "userWrap", Args: cl.Args})
+		return fold.Iface{V: fold.Sym{Name: "wrapped(" + nameOf(cl.Args[0]) + ")", NonNil: true}}
+	}
+	var connObj *fold.Obj
+	userSet := false
+	m.Bind = func(mm *fold.Machine) []fold.Val {
+		var out []fold.Val
+		connObj = nil
+		for i, fv := range fn.FreeVars {
+			_, byRef := hook.Bindings[i].(*ssa.Alloc)
+			pt, isPtr := fv.Type().Underlying().(*types.Pointer)
+			switch {
+			case byRef && isPtr:
+				var init fold.Val
+				switch pt.Elem().Underlying().(type) {
+				case *types.Signature:
+					// the user's hook, captured before it was replaced
+					if mm.Choose("user-wrap-set", 2) == 1 {
+						init = fold.Sym{Name: "userWrap", NonNil: true}
+						userSet = true
+					} else {
+						init = fold.Nil{}
+						userSet = false
+					}
+				case *types.Interface:
+					init = fold.Nil{}
+				default:
+					init = fold.SymOfType(fv.Name(), pt.Elem())
+				}
+				o := mm.NewObj(fv.Name(), init)
+				if types.TypeString(pt.Elem(), nil) == "net.Conn" {
+					connObj = o
+				}
+				out = append(out, fold.Ref{O: o})
+			case isPtr:
+				out = append(out, fold.Ref{O: mm.NewObj(fv.Name(), fold.SymOfType(fv.Name(), pt.Elem()))})
+			default:
+				out = append(out, fold.SymOfType(fv.Name(), fv.Type()))
+			}
+		}
+		return out
+	}
+	var problems []string
+	n := 0
+	paths := m.Explore(fn, func(mm *fold.Machine) []fold.Val {
+		return []fold.Val{fold.Iface{V: fold.Sym{Name: "raw", NonNil: true}}}
+	}, func(mm *fold.Machine, p *fold.Path) {
+		n++
+		want := "raw"
+		if userSet {
+			want = "wrapped(raw)"
+			if len(p.Calls("userWrap")) != 1 {
+				problems = append(problems, "the user's WrapConn is configured but is not applied exactly once")
+			}
+		}
+		if connObj == nil {
+			problems = append(problems, "undecided: the hook does not remember the connection in a captured net.Conn variable")
+			return
+		}
+		if got := nameOf(mm.Load(fold.Ref{O: connObj})); got != want {
+			problems = append(problems, fmt.Sprintf("the connection Dial hands back (and re-points the buffered reader at) is %s, the handshake ran on %s: the user's WrapConn is lost for everything after the handshake", got, want))
+		}
+		ret := p.Ret
+		if i, ok := ret.(fold.Iface); ok {
+			ret = i.V
+		}
+		if st, ok := ret.(fold.Struct); ok && len(st.F) > 0 {
+			if got := nameOf(st.F[0]); got != want {
+				problems = append(problems, fmt.Sprintf("the connection the handshake is given embeds %s instead of %s", got, want))
+			}
+		} else {
+			problems = append(problems, "undecided: the hook returns "+fold.Show(p.Ret))
+		}
+	})
+	for _, p := range paths {
+		if p.Abort != "" || p.Panic {
+			problems = append(problems, "undecided: "+p.Abort+panicNote(p))
+		}
+	}
+	c.R.AddCells(len(paths))
+	c.verdict(rule, rule+"/DebugDialer.Dial", c.P.FuncPos(fn), uniq(problems), fmt.Sprintf("%d paths: with and without a user WrapConn, with and without OnRequest / OnResponse", n))
 }
